@@ -411,21 +411,33 @@ def run_check(mod):
         # attributed to that finding only if EVERY member (at most 8) minimises into it.
         fid = kf.classify(mod, dict(v2, plan=small))
         if fid is not None and len(unknown[key]) <= 8:
-            ok = True
+            # every member is minimised and classified on its own: a member counts as known when ITS minimised
+            # plan is recognised by some open finding; the group is reported only if a member stays unrecognised
+            known_here = {fid: 1}
+            stranger = None
             for other in unknown[key]:
                 if other is v:
                     continue
                 s2, _ = shrink(mod, other['plan'], other['sig'], other.get('detail'), budget=150)
                 r2 = safe_execute(mod, s2)
-                if r2['status'] != 'violation' or kf.classify(mod, {'plan': s2, 'invariant': r2['invariant'],
-                                                                     'sig': r2['sig'], 'detail': r2.get('detail', {})}) != fid:
-                    ok = False
+                f2 = None
+                if r2['status'] == 'violation':
+                    f2 = kf.classify(mod, {'plan': s2, 'invariant': r2['invariant'], 'sig': r2['sig'],
+                                           'detail': r2.get('detail', {})})
+                if f2 is None:
+                    stranger = (other, s2, r2)
                     break
-            if ok:
-                known_counts[fid] = known_counts.get(fid, 0) + len(unknown[key])
+                known_here[f2] = known_here.get(f2, 0) + 1
+            if stranger is None:
+                for f_, c_ in known_here.items():
+                    known_counts[f_] = known_counts.get(f_, 0) + c_
                 n_viol -= len(unknown[key])
-                print('known-finding (after minimisation): %s x%d sig=%s' % (fid, len(unknown[key]), key))
+                print('known-finding (after minimisation): %s sig=%s' % (json.dumps(known_here, sort_keys=True), key))
                 continue
+            other, s2, r2 = stranger
+            if r2['status'] == 'violation':
+                v, small = other, s2
+                v2 = {'invariant': r2['invariant'], 'sig': r2['sig'], 'detail': r2.get('detail', {})}
         path = write_replay(mod, small, v2, minimized_from=P.short(v['plan']))
         lines.append('VIOLATION property=%s replay=%s' % (mod.ID, path))
         print('violation: %s x%d sig=%s shrink_execs=%d' % (v2['invariant'], len(unknown[key]), key, used))
